@@ -812,7 +812,8 @@ def dot(x, y, out=None, out_like=None, sizing='optimal', method='raw', **kwargs)
                 x_raw = x_raw.astype(np.int64)
             if y_raw.dtype.kind == 'u' and y.n_word < _n_word_max:
                 y_raw = y_raw.astype(np.int64)
-        if x.n_word + y.n_word + int(np.ceil(np.log2(max(np.shape(x_raw)[-1] if np.ndim(x_raw) else 1, 1)))) >= _n_word_max - 1:
+        if x.n_word + y.n_word + int(np.ceil(np.log2(max(np.shape(x_raw)[-1] if np.ndim(x_raw) else 1, 1)))) >= _n_word_max - 1 \
+                and getattr(x_raw, 'dtype', np.dtype(object)).kind in 'iu' and getattr(y_raw, 'dtype', np.dtype(object)).kind in 'iu':
             # the accumulated products can leave 64 bits (numpy integers wrap around silently): python integers
             x_raw, y_raw = np.asarray(x_raw).astype(object), np.asarray(y_raw).astype(object)
         return utils.scale_raw(np.dot(x_raw, y_raw, **kwargs), n_frac - x.n_frac - y.n_frac)
